@@ -244,6 +244,34 @@ I1_RESET = {
 I1_CONFIG = {"max_threads", "max_history", "location", "log"}
 
 
+def recycled_thread_stale_fields(prog):
+    """Fields of rt::thread::Thread that thread::Set::clear does *not* re-initialise to the constructor's value on every path
+    (meaningful when clear() recycles a Thread slot instead of pushing Thread::new)."""
+    sk = "rt::thread::Set::clear"
+    sfn = prog.fn(sk)
+    stale = []
+    for tf in [x["name"] for x in prog.adts[T]["variants"][0]["fields"] if not x["ty"].startswith("tracing::")]:
+        from_param = any(x[0] == "param" for w in prog.writers().get((T, tf), []) if w["kind"] == "construct" and w["fn"] == T + "::new"
+                         for x in subexprs(prog.fns[w["fn"]].body.expr_of_operand(w["op"])))
+        tws = [w for w in prog.writers().get((T, tf), []) if w["fn"] == sk and
+               (is_reinit_write(prog, w, T, tf, T + "::new") or (from_param and w["kind"] == "assign" and w.get("exact")))]
+        if not (tws and every_path_passes(sfn.body, [w["bb"] for w in tws])):
+            stale.append(tf)
+    return stale
+
+
+def threads_rebuilt(prog):
+    """thread::Set::clear drops every Thread and pushes a fresh Thread::new (the form of the reference tree)."""
+    sk = "rt::thread::Set::clear"
+    sfn = prog.fn(sk)
+    if sfn is None:
+        return None
+    keys = [(prog.callee_key(c), canon(arg_expr(sfn.body, t, 0)) if t["args"] else "") for (b, t, c) in prog.sites(prog.ident(sk))]
+    cleared = any(k.endswith("Vec::<T, A>::clear") and "self.threads" in a for k, a in keys)
+    pushed = any(k.endswith("Vec::<T, A>::push") and "self.threads" in a for k, a in keys)
+    return cleared and pushed
+
+
 def I1(ctx):
     """Reset completeness: every field of Execution is rebuilt/advanced/cleared or a listed configuration field in Execution::step; Set::clear assigns every field; lazy statics re-created."""
     prog = ctx.prog
@@ -261,16 +289,34 @@ def I1(ctx):
         for s in blk["stmts"]:
             if s["k"] == "=" and s["rv"]["k"] == "agg" and s["rv"].get("adt") == EXEC:
                 ctor = (b, s)
-    if ctor is None:
-        ctx.missing("I1", fk, "Execution is not rebuilt in step()")
-        return
-    b0, s0 = ctor
-    ops = dict(zip(s0["rv"]["field_names"], s0["rv"]["ops"]))
+    dom = body.dominators()
+    newval = {}
+    if ctor is not None:
+        # rebuild form: `Some(Execution { id, path, .. })`
+        b0, s0 = ctor
+        ops = dict(zip(s0["rv"]["field_names"], s0["rv"]["ops"]))
+        for f in fields:
+            newval[f] = strip(body.expr_of_operand(ops[f])) if f in ops else None
+    else:
+        # in-place form: `self.x.clear(); self.id = Id::new(); Some(self)` - the value of a field at the `Some(self)` is what
+        # was last assigned to it on the way, or the field itself
+        somes = [b for b in blocks_assigning_ret(body, lambda e: e[0] == "agg" and e[2] == "Some" and strip(e[3][0])[0] == "param")
+                 if not body.blocks[b]["cleanup"]]
+        if len(somes) != 1:
+            ctx.missing("I1", fk, "Execution::step neither rebuilds the Execution nor returns Some(self)")
+            return
+        b0 = somes[0]
+        for f in fields:
+            ws = [w for w in prog.writers().get((EXEC, f), []) if w["fn"] == fk and w["kind"] == "assign" and w["exact"] and w["bb"] in dom[b0]]
+            if ws:
+                newval[f] = strip(rv_expr(prog, max(ws, key=lambda w: len(dom[w["bb"]]))))
+            else:
+                newval[f] = ("field", ("param", 1, "self"), f, EXEC)
     calls = [(b, t, prog.callee_key(c)) for (b, t, c) in prog.sites(inst)]
     n = 0
     for f in fields:
         n += 1
-        e = strip(body.expr_of_operand(ops[f])) if f in ops else None
+        e = newval.get(f)
         if f == "id":
             if e is not None and e[0] == "call" and e[1] == "rt::execution::Id::new":
                 ctx.ok("I1", "Execution.id", "fresh Id::new()", [site_str(prog, fk, b0)])
@@ -290,7 +336,6 @@ def I1(ctx):
             continue
         hit = [bb for (bb, t, k) in calls if (k == reset or (reset == "<collection>::clear" and is_std_collection_call(k, "clear")))
                and is_field(arg_expr(body, t, 0), EXEC, f)]
-        dom = body.dominators()
         if hit and e is not None and is_field(e, EXEC, f) and any(h in dom[b0] for h in hit):
             ctx.ok("I1", "Execution." + f, "%s before the next iteration" % reset.split("::")[-1], [site_str(prog, fk, hit[0])])
         else:
@@ -310,8 +355,19 @@ def I1(ctx):
                 pushed = any(k.endswith("Vec::<T, A>::push") and "self.threads" in a for k, a in keys)
                 if cleared and pushed:
                     ctx.ok("I1", "Set.threads", "cleared and re-seeded with a fresh main thread", [sfn.loc()])
-                else:
+                    continue
+                # in-place form: keep slot 0, drop the rest, and re-initialise *every* field of the kept Thread
+                trunc = any((k.endswith("Vec::<T, A>::truncate") or k.endswith("Vec::<T, A>::clear") or k.endswith("::drain")) and "self.threads" in a
+                            for k, a in keys)
+                stale = recycled_thread_stale_fields(prog)
+                if trunc and not stale:
+                    ctx.ok("I1", "Set.threads", "spawned threads dropped; every field of the recycled main thread re-initialised to the constructor's value", [sfn.loc()])
+                elif not trunc:
                     ctx.bad("I1", "Set.threads", "thread::Set::clear must drop all threads and push a fresh main thread", sfn.loc())
+                else:
+                    for tf in stale:
+                        ctx.bad("I1", "Thread." + tf, "the recycled main thread keeps `%s` from the previous iteration (not re-initialised to the value "
+                                "Thread::new gives it)" % tf, sfn.loc(), detail="survives")
                 continue
             assigns = [w for w in ws if w["kind"] == "assign" and every_path_passes(sfn.body, [w["bb"]])]
             if assigns:
@@ -409,7 +465,7 @@ def I3(ctx):
                     ctx.ok("I3", w["fn"], "constructs Execution", [site_str(prog, w["fn"], w["bb"])])
                 else:
                     ctx.bad("I3", w["fn"], "Execution is constructed outside Execution::new/step", site_str(prog, w["fn"], w["bb"]))
-    ctx.floor("I3", n, 2, "new, step")
+    ctx.floor("I3", n, 1, "Execution::new (and step, when it rebuilds)")
     # Execution::new starts from empty containers
     fk = EXEC + "::new"
     fn = prog.fn(fk)
@@ -478,7 +534,8 @@ def B5(ctx):
         tgt = switch_targets_for(t, True)
         r = set()
         for x in tgt:
-            r |= body.reachable(x)
+            # path-sensitive in constant flags (`return true` of an inlined limit helper joins before the caller tests it)
+            r |= PEval(body).run(start=x)[0]
         runs = {bb for (bb, tt, c) in prog.sites(inst) if prog.callee_key(c) == "rt::scheduler::Scheduler::run"}
         plain = any(body.term(x)["k"] == "return" for x in r) and not (r & runs) and \
             not any(body.term(x)["k"] == "call" and callee_path(body.term(x)).startswith("core::panicking") for x in r)
